@@ -131,7 +131,8 @@ func fixIns(ins *x86asm.Inst, pos int, block []byte, blockSize int,
 		result := bytecode.EncodeAddress(block[pos:offset],
 			block[offset:offset+ins.PCRel], ins.PCRel, addr, (int)(from)-(int)(trampoline))
 		if len(result) > ins.PCRel {
-			return result
+			// 相对地址之后可能还有立即数(比如 CMPQ x(SB), $7), 需要原样保留, 否则指令被截断
+			return append(result, block[offset+ins.PCRel:pos+ins.Len]...)
 		}
 	} else {
 		if ins.Op.String() == bytecode.CallInsName {
